@@ -17,8 +17,8 @@ import (
 	"github.com/dadrus/heimdall/internal/handler/management"
 	"github.com/dadrus/heimdall/internal/handler/middleware/http/errorhandler"
 	"github.com/dadrus/heimdall/internal/keyholder"
+	"github.com/dadrus/heimdall/internal/otel/metrics/certificate"
 	"github.com/dadrus/heimdall/internal/rules/mechanisms/finalizers"
-	"github.com/dadrus/heimdall/internal/watcher"
 
 	"github.com/dadrus/heimdall/verif/engine"
 	"github.com/dadrus/heimdall/verif/hx"
@@ -38,17 +38,20 @@ type storeEntry struct {
 	KID  string
 	Seed int
 	Cert bool
+	// Chain: the certificate is issued by a CA (also in the file) that expires BEFORE the certificate itself
+	Chain bool
 }
 
 var storeVersions = []storeVersion{
-	{"v-two-keys", []storeEntry{{"sig-1", 200, false}, {"sig-2", 201, false}}},
-	{"v-same-ids-new-keys", []storeEntry{{"sig-1", 210, false}, {"sig-2", 211, false}}},
-	{"v-same-keys-swapped-ids", []storeEntry{{"sig-1", 201, false}, {"sig-2", 200, false}}},
-	{"v-same-entries-reordered", []storeEntry{{"sig-2", 201, false}, {"sig-1", 200, false}}},
-	{"v-one-key-less", []storeEntry{{"sig-1", 200, false}}},
-	{"v-generated-ids", []storeEntry{{"", 220, false}, {"", 221, false}}},
-	{"v-generated-ids-new-keys", []storeEntry{{"", 230, false}, {"", 231, false}}},
-	{"v-first-key-renewed-with-certificate", []storeEntry{{"sig-1", 240, true}, {"sig-2", 201, false}}},
+	{"v-two-keys", []storeEntry{{"sig-1", 200, false, false}, {"sig-2", 201, false, false}}},
+	{"v-same-ids-new-keys", []storeEntry{{"sig-1", 210, false, false}, {"sig-2", 211, false, false}}},
+	{"v-same-keys-swapped-ids", []storeEntry{{"sig-1", 201, false, false}, {"sig-2", 200, false, false}}},
+	{"v-same-entries-reordered", []storeEntry{{"sig-2", 201, false, false}, {"sig-1", 200, false, false}}},
+	{"v-one-key-less", []storeEntry{{"sig-1", 200, false, false}}},
+	{"v-generated-ids", []storeEntry{{"", 220, false, false}, {"", 221, false, false}}},
+	{"v-generated-ids-new-keys", []storeEntry{{"", 230, false, false}, {"", 231, false, false}}},
+	{"v-first-key-renewed-with-certificate", []storeEntry{{"sig-1", 240, true, false}, {"sig-2", 201, false, false}}},
+	{"v-first-key-with-chain-whose-ca-expires-first", []storeEntry{{"sig-1", 250, true, true}, {"sig-2", 201, false, false}}},
 }
 
 type RotationCase struct {
@@ -78,7 +81,14 @@ func (v storeVersion) pem() ([]byte, []any) {
 		spec := hx.KeySpec{Kind: "EC", Size: 256, KID: e.KID, WithCert: e.Cert, CN: fmt.Sprintf("%s-%d", v.Name, i),
 			NotBefore: time.Now().Add(-time.Hour), NotAfter: time.Now().Add(24 * 365 * time.Hour)}
 		k := hx.Key("EC", 256, e.Seed)
-		out = append(out, hx.PEMEntry(spec, k)...)
+
+		if e.Chain {
+			out = append(out, hx.PEMChainEntry(e.KID, k, hx.Key("EC", 256, e.Seed+1000), time.Now().Add(-time.Hour),
+				time.Now().Add(24*365*time.Hour), time.Now().Add(24*30*time.Hour))...)
+		} else {
+			out = append(out, hx.PEMEntry(spec, k)...)
+		}
+
 		pubs = append(pubs, k.Public())
 	}
 
@@ -94,27 +104,46 @@ func execRotation(rc *RotationCase) (sig, summary string) {
 
 	must(os.WriteFile(path, pemBytes, 0o600))
 
-	sconf := &finalizers.SignerConfig{KeyStore: finalizers.KeyStore{Path: path}, KeyID: rc.KeyID}
-
-	signer, err := finalizers.VerifC16NewJWTSigner(sconf, &watcher.NoopWatcher{})
-	if err != nil {
-		return "rotations/signer-creation-failed", err.Error()
-	}
+	// the finalizer is created the way the mechanism catalogue creates it: it registers its signer with the key holder
+	// registry (JWKS endpoint) and itself with the certificate observer (expiry metrics)
+	otelSetup()
 
 	reg := keyholder.VerifNewRegistry()
-	reg.AddKeyHolder(signer)
+	co := certificate.NewObserver()
 
+	if err := co.Start(); err != nil {
+		return "", "harness: certificate observer: " + err.Error()
+	}
+
+	signerConf := map[string]any{"key_store": map[string]any{"path": path}}
+	if rc.KeyID != "" {
+		signerConf["key_id"] = rc.KeyID
+	}
+
+	fin, err := finalizers.CreatePrototype(&cctx{reg: reg, co: co}, "jwt", finalizers.FinalizerJwt, map[string]any{"signer": signerConf, "ttl": "5m"})
+	if err != nil {
+		return "rotations/finalizer-creation-failed", err.Error()
+	}
+
+	signer := finalizers.VerifC16SignerOf(fin)
 	mgmt := management.VerifNewManagementHandler(reg, errorhandler.New())
 
-	readJWKS := func() (jose.JSONWebKeySet, string) {
+	readJWKS := func() (jose.JSONWebKeySet, string, error) {
+		// a scrape of the metrics endpoint happens whenever it happens: here before every read of the key set
+		if cerr := collectMetrics(); cerr != nil {
+			return jose.JSONWebKeySet{}, "", fmt.Errorf("metrics collection failed: %w", cerr)
+		}
+
 		rec := httptest.NewRecorder()
 		mgmt.ServeHTTP(rec, httptest.NewRequest(http.MethodGet, management.EndpointJWKS, nil))
 
 		var set jose.JSONWebKeySet
 
-		must(json.Unmarshal(rec.Body.Bytes(), &set))
+		if uerr := json.Unmarshal(rec.Body.Bytes(), &set); uerr != nil {
+			return set, rec.Body.String(), uerr
+		}
 
-		return set, rec.Body.String()
+		return set, rec.Body.String(), nil
 	}
 
 	verify := func(step string, pubs []any) (string, string) {
@@ -123,7 +152,10 @@ func execRotation(rc *RotationCase) (sig, summary string) {
 			return "rotations/sign-failed/" + step, err.Error()
 		}
 
-		set, body := readJWKS()
+		set, body, jerr := readJWKS()
+		if jerr != nil {
+			return "rotations/served-document-is-not-a-valid-key-set/" + step, fmt.Sprintf("%v: %.300s", jerr, body)
+		}
 
 		if len(set.Keys) != len(pubs) {
 			return "rotations/jwks-does-not-list-the-keys-of-the-store-in-effect/" + step, body
